@@ -218,7 +218,7 @@ func runC11L5(c *Ctx) {
 	c11useCtx(c)
 	n := 0
 	seen := map[ssa.Instruction]bool{}
-	for _, f := range c.fnsWhere("cert", func(fn *ssa.Function) bool { return len(condLessLoops(fn)) > 0 }) {
+	for _, f := range c.fnsWhere("cert", func(fn *ssa.Function) bool { return len(c11watchLoops(fn)) > 0 }) {
 		// the loop function and the helpers its iterations call (a step helper may do the sleeping)
 		reg := c.region(f) // static helpers only: the loaders a watcher is handed (Vault, Consul clients) have their own timing
 		// timers and tickers count only in the loops that deliver material (they send certificates or PEM blocks); a
